@@ -18,7 +18,10 @@ HARNESS_TIMEOUT = 900
 RULE = ("histories of 3-11 operations on a fresh in-memory cluster of 1-3 nodes (real aspen KV + gossip, real cesium "
         "engines), name validation on in 80%: batched creates of 1-4 channels (index / fixed-density data with an index "
         "on the same or another lease / variable-length / leased virtual / free virtual / calculated; default, explicit, "
-        "remote, free and non-existent leaseholders; retrieve-if-exists and overwrite options), renames, deletes by key "
+        "remote, free and non-existent leaseholders; retrieve-if-exists and overwrite options; re-submission of an existing "
+        "calculated channel WITH its key, alone or next to new channels, followed by one more free create), renames "
+        "(including batches one leaseholder must reject as a whole: ordinary channels next to its internal control "
+        "channel, a deleted or a never existing key), deletes by key "
         "and by name (indexes with and without their dependants, duplicates, already deleted keys, internal channels), "
         "channel-service restarts, counter bumps to the 2^20 boundary; about a quarter of the requests are malformed "
         "(empty/invalid/duplicate/taken names, missing data type, data channel without or with a wrong index, virtual "
